@@ -70,7 +70,8 @@ func TestVerif_C35_Mux(t *testing.T) {
 
 		mux, err := NewMux(c35Listener{}, c35Addr{})
 		if err != nil {
-			rt.Skipf("infrastructure: %v", err)
+			rec.Label("inconclusive:infrastructure")
+			return
 		}
 		mux.Logger.SetOutput(io.Discard)
 		type got struct {
